@@ -6,7 +6,9 @@ generate  : gen_config(rng), gen_step(world, cfg, rng) -> op record (JSON-able)
 execute   : World.step(rec) -> outcome (JSON-able); raises core.Violation
 Replay needs only the op records: execution never draws from a PRNG.
 """
+import itertools
 import math
+import signal
 
 import numpy as np
 
@@ -35,6 +37,17 @@ LITS = ['ndarray', 'list_of_ndarray', 'none', 'scalar', 'tuple', 'str', 'numlist
 
 # X([y1..yn]) with items of another class that the constructor documents as a conversion
 DOCUMENTED_LIST_CONVERSIONS = {('UnitQuaternion', 'SO3'), ('UnitQuaternion', 'SE3')}
+
+CALL_GUARD_S = 20.0
+
+
+class CallTimeout(BaseException):
+    """A list operation ran for CALL_GUARD_S seconds: reported as an unexpected outcome."""
+
+
+def _on_alarm(signum, frame):
+    raise CallTimeout()
+
 
 _classes = {}
 
@@ -353,9 +366,14 @@ class World:
     def run_call(self, fn, expect, what):
         """Run fn(); expect is 'ok', 'raise' (any exception) or 'IndexError'.
         Returns (raised?, value or exception)."""
+        signal.signal(signal.SIGALRM, _on_alarm)
+        signal.setitimer(signal.ITIMER_REAL, CALL_GUARD_S)
         try:
-            val = fn()
-        except Exception as e:                                   # noqa: BLE001
+            try:
+                val = fn()
+            finally:
+                signal.setitimer(signal.ITIMER_REAL, 0)
+        except (Exception, CallTimeout) as e:                    # noqa: BLE001
             if expect == 'ok':
                 self.fail('unexpected_exception', what=what, observed=type(e).__name__,
                           message=str(e)[:200])
@@ -499,19 +517,23 @@ class World:
             return {'r': 'skip'}
         mode = rec.get('mode') or ('rev' if rec.get('rev') else 'plain')
         m = list(x.model)
+        cap = len(m) + 3        # an iteration that does not stop is reported, not waited for
         if mode == 'rev':
-            _, items = self.run_call(lambda: [e for e in reversed(x.real)], 'ok', 'reversed iteration')
+            _, items = self.run_call(lambda: list(itertools.islice(reversed(x.real), cap)), 'ok',
+                                     'reversed iteration')
             want = list(reversed(m))
             self.probe('p_reversed_iteration')
         elif mode == 'zip':
             # two iterations of the same object in lock step
-            _, pairs = self.run_call(lambda: list(zip(x.real, x.real)), 'ok', 'zip(x, x)')
+            _, pairs = self.run_call(lambda: list(itertools.islice(zip(x.real, x.real), cap)), 'ok',
+                                     'zip(x, x)')
             items = [p[k] for p in pairs for k in (0, 1)]
             want = [e for e in m for _ in (0, 1)]
             self.probe('p_overlapping_iterations')
         elif mode == 'nested' and len(m) <= 6:
-            _, pairs = self.run_call(lambda: [(a, b) for a in x.real for b in x.real], 'ok',
-                                     'nested iteration')
+            _, pairs = self.run_call(
+                lambda: list(itertools.islice(((a, b) for a in x.real for b in x.real), cap * cap)),
+                'ok', 'nested iteration')
             items = [p[k] for p in pairs for k in (0, 1)]
             want = [e for a in m for b in m for e in (a, b)]
             self.probe('p_overlapping_iterations')
@@ -520,13 +542,13 @@ class World:
             def run():
                 it = iter(x.real)
                 first = next(it)
-                middle = [e for e in x.real]
-                return [first] + middle + [e for e in it]
+                middle = list(itertools.islice(x.real, cap))
+                return [first] + middle + list(itertools.islice(it, cap))
             _, items = self.run_call(run, 'ok', 'interleaved iterations')
             want = [m[0]] + m + m[1:]
             self.probe('p_overlapping_iterations')
         else:
-            _, items = self.run_call(lambda: [e for e in x.real], 'ok', 'iteration')
+            _, items = self.run_call(lambda: list(itertools.islice(x.real, cap)), 'ok', 'iteration')
             want = m
         if len(items) != len(want):
             self.fail('result_value', what='iteration (%s)' % mode, why='number of items',
